@@ -69,6 +69,34 @@ def close(a, b, scale, n):
     return np.all(np.abs(np.asarray(a, dtype=complex).ravel() - np.asarray(b, dtype=complex).ravel()) <= 16 * (n + 2) * np.finfo(float).eps * (scale + 1e-300))
 
 
+def lookup_conditioning(lt_tx, lt_rx, pairs, t0, dt, tt, interp, wmax=1.0):
+    """The kernels form the lookup index x = (tau - t0)/dt in floating point; the definition uses the exact value of the same
+    floats.  |dx| <= ~4 eps (|tau| + |t0|)/dt + 4 eps |x|.  Returns (extra absolute tolerance per image point, mask of the
+    image points whose value is well defined): linear interpolation turns dx into dx * |slope|; a lookup within dx of an
+    edge of the window (linear: 0 or ns-1; nearest: any half-integer) may legitimately fall on either side."""
+    eps = np.finfo(float).eps
+    tt = np.asarray(tt)
+    ns = tt.shape[1]
+    tau = np.stack([lt_tx[:, i] + lt_rx[:, j] for i, j in pairs], axis=1)  # (points, timetraces)
+    x = (tau - t0) / dt
+    dx = 4 * eps * (np.abs(tau) + abs(t0)) / dt + 4 * eps * np.abs(x) + 4 * eps
+    if interp == "linear":
+        slope = np.abs(np.diff(tt, axis=1)).max(axis=1) if ns > 1 else np.zeros(len(pairs))
+        extra = (dx * slope[None, :] * wmax).sum(axis=1) / len(pairs)
+        ok = ~((np.abs(x) <= dx) | (np.abs(x - (ns - 1)) <= dx)).any(axis=1)
+    else:
+        extra = np.zeros(tau.shape[0])
+        fr = x - np.floor(x)
+        ok = ~(np.abs(fr - 0.5) <= dx).any(axis=1)
+    return extra, ok
+
+
+def close_c(a, b, scale, n, extra, ok):
+    a, b = np.asarray(a, dtype=complex).ravel(), np.asarray(b, dtype=complex).ravel()
+    tol = 16 * (n + 2) * np.finfo(float).eps * (np.asarray(scale) + 1e-300) + extra
+    return np.all((np.abs(a - b) <= tol) | ~ok)
+
+
 def check_contact(ctx):
     import arim.geometry as g
     from arim.im import tfm
@@ -113,12 +141,14 @@ def check_contact(ctx):
             cdef = dict(tx=np.array([i for i, _ in pairs]), rx=np.array([j for _, j in pairs]), tt=fr.timetraces, dt=dt, t0=t0, lt_tx=lookup, lt_rx=lookup,
                         amp=False, weights=_ut.default_timetrace_weights([i for i, _ in pairs], [j for _, j in pairs]), interp=interp)
             want_def, _, sc_def = c02.definition(cdef, complex(fill))
-            if not np.all(np.abs(np.asarray(res[kind][0], dtype=complex).ravel() - want_def) <= 16 * (len(pairs) + 2) * np.finfo(float).eps * (sc_def + 1e-300)):
+            extra, okm = lookup_conditioning(lookup, lookup, pairs, t0, dt, fr.timetraces, interp, wmax=float(np.max(cdef["weights"])))
+            ctx.count("contact:ill_conditioned_points", int((~okm).sum()))
+            if not close_c(res[kind][0], want_def, sc_def, len(pairs), extra, okm):
                 ctx.violate(f"contact TFM ({kind}) is not delay-and-sum with lookup times distance/velocity and the default weights", {**cj, "capture": kind}, {"kind": "contact_definition", "interp": interp})
             Gp = np.array([G[i, j] for i, j in pairs])
             l2.append(" ".join(["ctfm", interp[0], frac_s(F(fill)), "0", frac_s(F(t0)), frac_s(F(dt)), ",".join(f"{i}:{j}" for i, j in pairs),
                                 qmat(Gp.real), qmat(Gp.imag), qmat(lookup)]))
-            meta.append((res[kind][0], cj, kind, len(pairs), np.abs(G).max() * 2 + abs(fill)))
+            meta.append((res[kind][0], cj, kind, len(pairs), np.abs(G).max() * 2 + abs(fill), extra, okm))
         ctx.case(("contact", probe.locations.coords.tobytes(), grid.to_1d_points().coords.tobytes(), v, interp), numel >= 2,
                  sample={"op": "contact_tfm", "numel": numel, "gridpoints": grid.numpoints, "interp": interp} if numel >= 2 else None)
         ctx.count("contact:" + interp)
@@ -138,8 +168,8 @@ def check_contact(ctx):
         if not close(re_, rf, scale, len(pf)):
             ctx.violate("expand-by-reciprocity then contact TFM differs from the full-matrix image", cj, {"kind": "expand_image", "interp": interp})
     a2 = ctx.drive(l2) if ctx.lean.driver_ok and not ctx.oracle_only else []
-    for (res_, cj, kind, n, scale), a in zip(meta, a2):
-        if not a.startswith("ok ") or not close(res_, parse_q(a), scale, n):
+    for (res_, cj, kind, n, scale, extra, okm), a in zip(meta, a2):
+        if not a.startswith("ok ") or not close_c(res_, parse_q(a), scale, n, extra, okm):
             ctx.disagree(f"contact_tfm ({kind}) differs from the Lean model contactTfm", {**cj, "capture": kind})
 
 
@@ -212,12 +242,14 @@ def check_views(ctx):
             cdef = dict(tx=np.array([i for i, _ in pairs]), rx=np.array([j for _, j in pairs]), tt=fr.timetraces, dt=dt, t0=t0, lt_tx=np.ascontiguousarray(ttx.T),
                         lt_rx=np.ascontiguousarray(trx.T), amp=False, weights=None, interp=interp)
             want_def, _, sc_def = c02.definition(cdef, 0j)
-            if not np.all(np.abs(np.asarray(r1, dtype=complex).ravel() - want_def) <= 16 * (len(pairs) + 2) * np.finfo(float).eps * (sc_def + 1e-300)):
+            extra, okm = lookup_conditioning(cdef["lt_tx"], cdef["lt_rx"], pairs, t0, dt, fr.timetraces, interp)
+            ctx.count("view:ill_conditioned_points", int((~okm).sum()))
+            if not close_c(r1, want_def, sc_def, len(pairs), extra, okm):
                 ctx.violate(f"tfm_for_view({name}) is not delay-and-sum with the transposed ray-tracing times of its two paths", cj, {"kind": "view_definition", "interp": interp})
             Gp = np.array([G[i, j] for i, j in pairs])
             lines.append(" ".join(["vtfm", interp[0], "0", "0", frac_s(F(t0)), frac_s(F(dt)), ",".join(f"{i}:{j}" for i, j in pairs),
                                    qmat(Gp.real), qmat(Gp.imag), qmat(ttx), qmat(trx)]))
-            meta.append((r1, cj, scale, len(pairs)))
+            meta.append((r1, cj, scale, len(pairs), extra, okm))
         # ---- unit spikes at the arrival times of a scatterer on a grid node
         view = views[pick[0]]
         node = int(rng.integers(0, grid.numpoints))
@@ -234,8 +266,8 @@ def check_views(ctx):
         if not (abs(img[node] - 1.0) <= 1e-12 and np.all(img <= 1.0 + 1e-12)):
             ctx.violate(f"unit-spike data: image at the scatterer node is {img[node]}, maximum {img.max()}", cj, {"kind": "spike_focus"})
     answers = ctx.drive(lines) if ctx.lean.driver_ok and not ctx.oracle_only else []
-    for (r1, cj, scale, n), a in zip(meta, answers):
-        if not a.startswith("ok ") or not close(r1, parse_q(a), scale, n):
+    for (r1, cj, scale, n, extra, okm), a in zip(meta, answers):
+        if not a.startswith("ok ") or not close_c(r1, parse_q(a), scale, n, extra, okm):
             ctx.disagree("tfm_for_view differs from the Lean model tfmForView", cj)
 
 
